@@ -15,6 +15,8 @@ ME = 'tally.merchant_engine.'
 SS = z3.SeqSort(StrS)
 sv = z3.StringVal
 RegexCall = UF('_regex_call', StrS, StrS)
+PatternCondition = UF('_pattern_condition', StrS, StrS)      # the match condition written for a pattern cell (contract: h_pattern_condition)
+IsExpr = UF('_is_expression_pattern', StrS, BoolS)
 ModExpr = UF('_modifier_to_expr', ObjS, StrS)
 truthy = UF('truthy', ObjS, BoolS)
 Join = UF('str.join', StrS, SS, StrS)
@@ -30,7 +32,7 @@ def block(cols, k):
     has_p = z3.Length(pattern) > 0
     mod = z3.If(truthy(parsed), ModExpr(parsed), sv(''))
     use_mod = z3.And(z3.Length(mod) > 0, z3.Not(z3.PrefixOf(sv('#'), mod)))
-    rc = RegexCall(pattern)
+    rc = PatternCondition(pattern)
     match = z3.If(z3.And(has_p, use_mod), z3.Concat(rc, sv(' and '), mod), z3.If(has_p, rc, z3.If(use_mod, mod, sv('true'))))
     # a rule needs a name: a row without merchant name is named after its pattern
     name = z3.If(z3.Length(strip(merchant)) == 0, pattern, merchant)
@@ -57,6 +59,7 @@ def h_blocks(ctx):
     ctx.assume(strip(sv('')) == sv(''))          # definitional fact of str.strip (the code strips a concrete '' where the spec strips the row's cell)
     rules = SymSeq(cols, 7, [None, None, None, None, 'ParsedPattern', None, None])
     sp.models['_regex_call'] = Func(lambda I_, a, k, nd: RegexCall(to_z3(a[0], StrS)))
+    sp.models['_pattern_condition'] = Func(lambda I_, a, k, nd: PatternCondition(to_z3(a[0], StrS)))
     sp.models['_modifier_to_expr'] = Func(lambda I_, a, k, nd: ModExpr(to_z3(a[0])))
     B = Ghost('Blocks', sorts, SS, base=lambda *c: z3.Empty(SS), step=lambda *a: z3.Concat(a[-1], block(a[:7], a[7])))
     header = {}
@@ -88,6 +91,20 @@ def h_blocks(ctx):
     ctx.cover('csv_to_merchants_content.returns')
 
 
+def h_pattern_condition(ctx):
+    """_pattern_condition(pattern): a pattern that the CSV path evaluates as an expression (the very predicate _is_expression_pattern the tuple loop asks) is
+    written as that expression, in parentheses; any other pattern is a regular expression and is written regex("...")"""
+    sp = Spec()
+    I = Interp(ctx, sp)
+    sp.models['_regex_call'] = Func(lambda I_, a, k, nd: RegexCall(to_z3(a[0], StrS)))
+    sp.models['tally.merchant_utils._is_expression_pattern'] = Func(lambda I_, a, k, nd: IsExpr(to_z3(a[0], StrS)))
+    sp.models['_is_expression_pattern'] = sp.models['tally.merchant_utils._is_expression_pattern']
+    p = ctx.fresh('pattern', StrS)
+    r = I.call_function(find_function(ME + '_pattern_condition'), [p])
+    ctx.check('C14.pattern_cell.expression_patterns_stay_expressions_others_become_regex', to_z3(r, StrS) == z3.If(IsExpr(p), z3.Concat(sv('('), p, sv(')')), RegexCall(p)), 'property')
+    ctx.cover('_pattern_condition.returns')
+
+
 def harnesses(tier):
     return [Harness('csv_to_merchants_content', h_blocks, [ME + 'csv_to_merchants_content'])]
 
@@ -106,4 +123,5 @@ def h_migration_converts_what_it_loaded(ctx):
 
 def harnesses(tier):       # noqa: F811
     return [Harness('csv_to_merchants_content', h_blocks, [ME + 'csv_to_merchants_content']),
+            Harness('_pattern_condition', h_pattern_condition, [ME + '_pattern_condition']),
             Harness('_migrate_csv_to_rules.wiring', h_migration_converts_what_it_loaded, ['tally.cli._migrate_csv_to_rules'])]
